@@ -2,6 +2,7 @@ package rules
 
 import (
 	"go/token"
+	"go/types"
 	"sort"
 	"strings"
 
@@ -253,7 +254,8 @@ func checkC20(c *km.Ctx) {
 		}
 		nSel, okSel := 0, true
 		var next *ssa.Next
-		km.Instrs(fn, func(in ssa.Instruction) {
+		// the send may live in a small helper new to the tree (a method of the subscriber)
+		instrsWithNewHelpers(c, fn, 2, func(in ssa.Instruction) {
 			switch x := in.(type) {
 			case *ssa.Select:
 				nSel++
@@ -263,7 +265,9 @@ func checkC20(c *km.Ctx) {
 			case *ssa.Send:
 				okSel = false // a bare send can block while the mutex is held
 			case *ssa.Next:
-				next = x
+				if in.Parent() == fn {
+					next = x
+				}
 			}
 		})
 		if nSel > 0 || strings.HasSuffix(name, "transmitEvent") {
@@ -296,7 +300,7 @@ func checkC20(c *km.Ctx) {
 	if fn := c.MustFunc("R-C20-3", "keymasterd/eventnotifier", "(*EventNotifier).publishCert"); fn != nil {
 		// publishCert either fans out itself or delegates to transmitEvent
 		has := false
-		km.Instrs(fn, func(in ssa.Instruction) {
+		instrsWithNewHelpers(c, fn, 2, func(in ssa.Instruction) {
 			if _, ok := in.(*ssa.Select); ok {
 				has = true
 			}
@@ -327,6 +331,19 @@ func checkC20(c *km.Ctx) {
 	// every registration in the subscriber table is made under a key created for that one connection (a value
 	// made in the registering call: the channel itself), and only that key is removed again: a key taken from
 	// the request (peer address, name) lets two connections replace or unregister one another
+	// the subscriber table: the map-typed field of the notifier that the fan-out ranges over (whatever its name)
+	subsField := "transmitChannels"
+	if te := c.P.Func("keymasterd/eventnotifier", "(*EventNotifier).transmitEvent"); te != nil {
+		km.Instrs(te, func(in ssa.Instruction) {
+			if rg, ok := in.(*ssa.Range); ok {
+				if _, isMap := rg.X.Type().Underlying().(*types.Map); isMap {
+					if root, path, ok := km.FieldPath(km.Unwrap(rg.X)); ok && !strings.Contains(path, ".") && strings.HasSuffix(km.NamedTypeOf(root.Type()), "eventnotifier.EventNotifier") {
+						subsField = path
+					}
+				}
+			}
+		})
+	}
 	nReg := 0
 	for _, fn := range c.P.AllFuncs {
 		if fn.Pkg == nil || fn.Pkg.Pkg.Path() != km.ModPath+"/keymasterd/eventnotifier" {
@@ -440,12 +457,12 @@ func checkC20(c *km.Ctx) {
 			return false
 		}
 		km.Instrs(fn, func(in ssa.Instruction) {
-			if mu, ok := in.(*ssa.MapUpdate); ok && mentionsField(mu.Map, "transmitChannels") {
+			if mu, ok := in.(*ssa.MapUpdate); ok && mentionsField(mu.Map, subsField) {
 				nReg++
 				r.Add("R-C20-3", km.FuncName(fn), "subscriber registered under a per-connection key", posOf(c, in), "the key is a value created by the registering call (the connection's own channel)", km.ValStr(mu.Key), freshIn(mu.Key))
 			}
 			if cl, ok := in.(*ssa.Call); ok {
-				if b, ok := cl.Common().Value.(*ssa.Builtin); ok && b.Name() == "delete" && mentionsField(cl.Common().Args[0], "transmitChannels") {
+				if b, ok := cl.Common().Value.(*ssa.Builtin); ok && b.Name() == "delete" && mentionsField(cl.Common().Args[0], subsField) {
 					r.Add("R-C20-3", km.FuncName(fn), "subscriber unregistered by its own key", posOf(c, in), "the key is the value created by the registering call", km.ValStr(cl.Common().Args[1]), freshIn(cl.Common().Args[1]))
 				}
 			}
